@@ -308,13 +308,15 @@ func (c *Real64) Erfc(a ConstScalar) Scalar {
 }
 func (c *Real64) LogErfc(a ConstScalar) Scalar {
   x := a.GetFloat64()
-  t := math.Erfc(x)
   v0 := special.LogErfc(x)
+  // q = 2/sqrt(pi) exp(-x^2)/erfc(x), evaluated with the scaled
+  // function since exp(x^2) and erfc(x) over- and underflow
+  q := 2.0/(special.M_SQRTPI*special.Erfcx(x))
   f1 := func() float64 {
-    return -2.0/(math.Exp(a.GetFloat64()*a.GetFloat64())*special.M_SQRTPI*t)
+    return -q
   }
   f2 := func() float64 {
-    return 4.0*(math.Exp(x*x)*special.M_SQRTPI*t*x - 1)/(math.Exp(2*x*x)*math.Pi*t*t)
+    return q*(2.0*x - q)
   }
   return c.monadicLazy(a, v0, f1, f2)
 }
